@@ -40,6 +40,7 @@ func runStreamJob(job *Job, res *Result) {
 	absOut := job.Args["absout"] == "1" // the streaming output is declared with an ABSOLUTE path in a not-yet-existing directory
 	midParent := job.Args["midparent"] == "1" // ... with a path that has a "../" in it: sub/../<name>.stream
 	leftFifo := job.Args["leftover_fifo"] == "1" // a named pipe left by a killed run sits at <path>.fifo
+	hdr := job.Args["hdr"] == "1"     // the consumer has a SECOND, ordinary in-port fed by a quick source (closed long before the producer is done)
 	spy := job.Args["spy"] == "1"     // a pass-through process between producer and consumer notes the order of the streamed IPs
 	res.Scenario = fmt.Sprintf("stream/n=%d/payload=%d/max=%d", n, size, maxT)
 	if mixed {
@@ -54,6 +55,13 @@ func runStreamJob(job *Job, res *Result) {
 	if spy {
 		res.Scenario += "/spy"
 	}
+	if hdr {
+		res.Scenario += "/consumer-with-second-in-port"
+	}
+	if job.ForceAll >= 0 {
+		res.Scenario += fmt.Sprintf("/maporder=%d", job.ForceAll)
+	}
+	vs.ForceAll = job.ForceAll
 	if staleFifo {
 		res.Scenario += "/regular-file-at-fifo-path"
 	}
@@ -102,6 +110,9 @@ func runStreamJob(job *Job, res *Result) {
 				syscall.Mkfifo(fmt.Sprintf("in%d.txt.stream.fifo", i), 0644)
 			}
 		}
+		if hdr {
+			os.WriteFile("hdr0.txt", []byte("HDR\n"), 0644)
+		}
 		before = statAll(".")
 		errLog.Reset()
 	}
@@ -124,8 +135,16 @@ func runStreamJob(job *Job, res *Result) {
 		if mixed {
 			prod.SetOut("log", "{i:in}.log")
 		}
-		cons := wf.NewProc("cons", "cat {i:in} > {o:out}")
+		consCmd := "cat {i:in} > {o:out}"
+		if hdr {
+			consCmd = "cat {i:hdr} {i:in} > {o:out}"
+		}
+		cons := wf.NewProc("cons", consCmd)
 		cons.SetOut("out", "{i:in}.copy")
+		if hdr {
+			hs := components.NewFileSource(wf, "hsrc", srcItems("hdr", 1)...)
+			cons.In("hdr").From(hs.Out())
+		}
 		prod.In("in").From(src.Out())
 		if spy {
 			sp1 := newSpy(wf, "spy")
@@ -244,7 +263,9 @@ func runStreamJob(job *Job, res *Result) {
 			got, ok := tree[cp]
 			if !ok {
 				add("missing-output", "consumer output "+cp+" does not exist", "")
-			} else if got != payload(i) {
+			} else if hdr && got != "HDR\n"+payload(i) {
+				add("wrong-bytes", fmt.Sprintf("consumer output %s holds %d bytes, expected the header line + the %d bytes the producer wrote", cp, len(got), size), "")
+			} else if !hdr && got != payload(i) {
 				add("wrong-bytes", fmt.Sprintf("consumer output %s holds %d bytes, the producer wrote %d (first difference at %d)", cp, len(got), size, firstDiff(got, payload(i))), "")
 			}
 			if c, ok := tree[op+in+".stream"]; ok && stale {
